@@ -27,6 +27,12 @@ RULE = ('(a) utils level: random tagged arrays of rank 1-5 in random dimension o
         'dimensions (time, k, bounds / connectivity vertex dimensions); the extra dimensions of a variable are '
         'drawn from those names - at the dataset\'s length or, half of the time, at another one - and from names '
         'the dataset does not have. '
+        'Histories: one convention object serves a whole dataset; two thirds of the flattened variables and half of '
+        'the wound ones are the first of a PAIR of the same layout, shape and storage type (two separate variables, or '
+        'two steps of one parent array) whose second member goes through the same object while the first one\'s '
+        'flattened form and round trip are still held; every input and every result is looked at again after every '
+        'later call on the object (values are only moved, never altered), and the held results of each pair are sent '
+        'to the model once more at the end of the dataset. '
         'Data are distinct integer tags, compared element by element together with dims. Non-trivial: rank >= 3 '
         'with the grid dimensions not already last and in order, or an error case; distinct by (dims, op, args).')
 TRUSTED = ['numpy reshape/transpose on C-ordered data; xarray.DataArray.transpose; python tuple indexing']
@@ -51,16 +57,27 @@ def call(f, *a, **k) -> str:
         return 'ODD'
 
 
-def tagged(dims, sizes, base=0, rng=None) -> xr.DataArray:
-    """an array whose every element is its own C-order position (+ base); with `rng`, in one of several storage
-    types and memory layouts (column-major, a strided view of a larger array, read-only) - the values, which is
-    all that ravel / wind may depend on, are the same"""
+DTYPES = ['i8', 'i8', 'f8', 'f4', 'i4', 'i2', 'u2']
+LAYOUTS = ['C', 'C', 'F', 'strided', 'readonly']
+
+
+def pick_style(rng) -> list:
+    """storage type and memory layout of one generated variable"""
+    return [rng.choice(DTYPES), rng.choice(LAYOUTS)]
+
+
+def tagged(dims, sizes, base=0, rng=None, style=None) -> xr.DataArray:
+    """an array whose every element is its own C-order position (+ base); with `rng` (or an explicit `style` =
+    [dtype, layout]), in one of several storage types and memory layouts (column-major, a strided view of a larger
+    array, read-only) - the values, which is all that ravel / wind may depend on, are the same"""
     shape = [sizes[d] for d in dims]
     n = int(np.prod(shape)) if shape else 1
     data = (np.arange(n) + base).reshape(shape)
-    if rng is not None:
-        data = data.astype(rng.choice(['i8', 'i8', 'f8', 'f4', 'i4', 'i2', 'u2']))
-        layout = rng.choice(['C', 'C', 'F', 'strided', 'readonly'])
+    if style is None and rng is not None:
+        style = pick_style(rng)
+    if style is not None:
+        data = data.astype(style[0])
+        layout = style[1]
         if layout == 'F':
             data = np.asfortranarray(data)
         elif layout == 'strided' and data.ndim >= 1:
@@ -71,6 +88,110 @@ def tagged(dims, sizes, base=0, rng=None) -> xr.DataArray:
         elif layout == 'readonly':
             data.setflags(write=False)
     return xr.DataArray(data, dims=list(dims))
+
+
+# ---- variables that come in pairs, and results that are kept ---------------------------------------------------
+# A dataset is not flattened one variable at a time by a fresh object: `dataset.ems` is ONE convention object, asked
+# for u and then v, for one time step and then the next, and what it returned for the first is still in the caller's
+# hands when it is asked for the second.  An array spec describes one generated variable, alone or as one of a pair of
+# the same layout, shape and storage type:
+#   two-variables  - two separate arrays (u and v)
+#   two-steps      - two slices of one parent array along a leading `step_` dimension (two time steps of one variable)
+# member 0 holds base .. base+n-1, member 1 holds base+n .. base+2n-1 (no value in common).
+PAIRS = ['two-variables', 'two-steps']
+
+
+def make_pair(spec: dict) -> list:
+    dims = list(spec['dims'])
+    sizes = dict(zip(dims, spec['sizes']))
+    n = int(np.prod(spec['sizes'])) if dims else 1
+    style = spec.get('style')
+    if spec.get('pair') == 'two-steps':
+        parent = tagged(['step_'] + dims, {**sizes, 'step_': 2}, base=spec['base'], style=style)
+        return [parent.isel(step_=0), parent.isel(step_=1)]
+    return [tagged(dims, sizes, base=spec['base'] + n * w, style=style) for w in (0, 1)]
+
+
+def make_array(spec: dict, pool: dict | None = None) -> xr.DataArray:
+    """the variable an array spec describes (`which` = member of the pair); members of one pair come from one
+    `make_pair` call when a `pool` is given"""
+    if not spec.get('pair'):
+        dims = list(spec['dims'])
+        return tagged(dims, dict(zip(dims, spec['sizes'])), base=spec['base'], style=spec.get('style'))
+    key = repr(sorted((k, repr(v)) for k, v in spec.items() if k != 'which'))
+    if pool is None:
+        return make_pair(spec)[spec.get('which', 0)]
+    if key not in pool:
+        pool[key] = make_pair(spec)
+    return pool[key][spec.get('which', 0)]
+
+
+def play(c, kind_objs: dict, chain: list, pool: dict | None = None):
+    """re-execute a chain of calls on the convention object `c`: [{'gen': array spec}, {'ravel': linear name or None},
+    {'wind': {'grid_kind': .., 'axis': .., 'linear_dimension': ..}}, ...] - this is what a replay runs"""
+    cur = None
+    for step in chain:
+        if 'gen' in step:
+            cur = make_array(step['gen'], pool)
+        elif 'ravel' in step:
+            cur = c.ravel(cur) if step['ravel'] is None else c.ravel(cur, linear_dimension=step['ravel'])
+        elif 'wind' in step:
+            kw = dict(step['wind'])
+            if 'grid_kind' in kw:
+                kw['grid_kind'] = kind_objs[kw['grid_kind']]
+            cur = c.wind(cur, **kw)
+        else:
+            raise ValueError(f'unknown step {step}')
+    return cur
+
+
+def wind_step(kw: dict) -> dict:
+    return {'wind': {k: (getattr(v, 'value', v) if k == 'grid_kind' else v) for k, v in kw.items()}}
+
+
+class Ledger:
+    """everything one convention object was given and has handed out so far.  "Values are only moved, never altered":
+    the variable that was passed in, its flattened form and the round trip are the caller's and must still hold the
+    values they held when they were returned, whatever the same object is asked to flatten or wind afterwards.
+    `after` is called after EVERY later ravel / wind on the object, so the call that did the damage is known."""
+
+    def __init__(self, ctx, recipe):
+        self.ctx, self.recipe, self.held, self.altered = ctx, recipe, [], []
+
+    def hold(self, what: str, arr, chain: list, op: str, late: bool = False) -> None:
+        try:
+            snap = (tuple(arr.dims), np.array(arr.values, copy=True))
+        except Exception:
+            return
+        self.held.append({'what': what, 'arr': arr, 'snap': snap, 'chain': chain, 'op': op, 'late': late})
+
+    @staticmethod
+    def intact(h) -> bool:
+        try:
+            now = np.asarray(h['arr'].values)
+            return tuple(h['arr'].dims) == h['snap'][0] and now.shape == h['snap'][1].shape and bool((now == h['snap'][1]).all())
+        except Exception:
+            return False
+
+    def after(self, chain: list, op: str) -> None:
+        keep = []
+        for h in self.held:
+            if self.intact(h):
+                keep.append(h)
+                continue
+            try:
+                now = np.asarray(h['arr'].values).reshape(-1)[:8].tolist()
+            except Exception:
+                now = '?'
+            self.ctx.oracle_fail(
+                'input-modified' if h['what'] == 'input' else 'result-altered-by-later-call',
+                {'recipe': self.recipe, 'op': h['op'], 'held': h['what'], 'held_chain': h['chain'],
+                 'later_call': op, 'later_chain': chain},
+                f"{h['what']} ({h['op'][:100]}) held {h['snap'][1].reshape(-1)[:8].tolist()}... when it was "
+                f"{'passed in' if h['what'] == 'input' else 'returned'}; after the later call ({op[:100]}) on the same "
+                f"convention object it holds {now}...")
+            self.altered.append(h)
+        self.held = keep
 
 
 def grids_spec(built) -> str:
@@ -100,8 +221,10 @@ def flat_str(dims_sizes, values) -> str:
 
 
 def convention_cases(ctx, conv: str, items: list) -> None:
-    """one generated dataset of convention `conv`: every grid kind x (ravel then wind) x (wind then ravel),
-    variables on no grid, variables with part of a grid"""
+    """one generated dataset of convention `conv`, ONE convention object for all of it: every grid kind x (ravel then
+    wind) x (wind then ravel), for single variables and for pairs of variables of one layout; variables on no grid,
+    variables with part of a grid; everything passed in and handed out is held and looked at again after every
+    later call"""
     rng = ctx.rng
     recipe = G.random_recipe(rng, conv, ctx.tier, max_n=4) if conv != 'ugrid' else G.random_recipe(rng, conv, ctx.tier, max_w=2, max_h=2)
     # the dataset itself has dimensions that belong to no grid (an auxiliary variable over time and k)
@@ -117,6 +240,21 @@ def convention_cases(ctx, conv: str, items: list) -> None:
     # every dimension of the generated dataset that is not a grid dimension (generator output, not read via emsarray)
     ds_other = {str(d): int(n) for d, n in built.ds.sizes.items() if d not in all_grid_dims}
     other_names = list(ds_other) + ['index', 'spare']
+    led = Ledger(ctx, recipe)
+
+    def impl(what, fn, chain, op, late=False):
+        """one call on the convention object: (result | None, canonical output); every earlier input and result is
+        looked at again afterwards, then this result joins them"""
+        try:
+            r = fn()
+            o = arr_str(r)
+        except Exception:
+            r, o = None, 'ERR'
+        led.after(chain, op)
+        if r is not None:
+            led.hold(what, r, chain, op, late)
+        return r, o
+
     for kind, (gdims, gshape) in built.grids.items():
         gsize = int(np.prod(gshape))
         if gsize > 60:
@@ -131,7 +269,11 @@ def convention_cases(ctx, conv: str, items: list) -> None:
                 extra.pop()
             dims = list(gdims) + extra
             rng.shuffle(dims)
-            da = tagged(dims, sizes, base=rng.randint(0, 9), rng=rng)
+            # the variable alone, or the first of a pair (u and v; two time steps of one variable)
+            pair = rng.choice([None] + PAIRS + PAIRS)
+            spec = {'dims': dims, 'sizes': [sizes[d] for d in dims], 'base': rng.randint(0, 9), 'style': pick_style(rng), 'pair': pair, 'which': 0}
+            pool = {}
+            da = make_array(spec, pool)
             a = arr_str(da)
             # the name of the linear dimension: default, a fresh name, one the variable keeps (refused), or the
             # name of a dimension that the flattening removes / of another grid's dimension (both are free)
@@ -140,14 +282,14 @@ def convention_cases(ctx, conv: str, items: list) -> None:
             mismatch = sorted(d for d in extra if d in ds_other and sizes[d] != ds_other[d])
             line = f"ravel {gs} {dflt} {a} {lin or '-'}"
             desc = {'recipe': recipe, 'op': line, 'dims': dims, 'sizes': [sizes[d] for d in dims], 'kind': kind, 'linear_dimension': lin,
-                    'dataset_sizes_of_other_dims': {d: ds_other[d] for d in extra if d in ds_other}}
-            try:
-                flat = c.ravel(da) if lin is None else c.ravel(da, linear_dimension=lin)
-                out = arr_str(flat)
-            except Exception:
-                flat, out = None, 'ERR'
+                    'array': spec, 'dataset_sizes_of_other_dims': {d: ds_other[d] for d in extra if d in ds_other}}
+            led.hold('input', da, [{'gen': spec}], line)
+            chain = [{'gen': spec}, {'ravel': lin}]
+            flat, out = impl('ravel(v)', lambda: c.ravel(da) if lin is None else c.ravel(da, linear_dimension=lin),
+                             chain, line, late=pair is not None)
             items.append((line, out, {'recipe': recipe, 'op': line}))
             ctx.count(f'ravel:{conv}:{kind}')
+            ctx.count('ravel:variable:' + (pair or 'alone'))
             ctx.count('ravel:other-dim-length:' + ('differs-from-dataset' if mismatch else 'as-dataset-or-unknown'))
             ctx.count('ravel:linear-name:' + ('default' if lin is None else 'grid-dimension' if lin in all_grid_dims else 'other'))
             nontriv = len(dims) >= 3 and dims[-len(gdims):] != list(gdims)
@@ -185,11 +327,8 @@ def convention_cases(ctx, conv: str, items: list) -> None:
                 kw['linear_dimension'] = lname
             wline = (f"wind {gs} {dflt} {out} {kind if 'grid_kind' in kw else '-'} "
                      f"{kw.get('axis', '-')} {kw.get('linear_dimension', '-')}")
-            try:
-                wound = c.wind(flat, **kw)
-                wout = arr_str(wound)
-            except Exception:
-                wound, wout = None, 'ERR'
+            wchain = chain + [wind_step(kw)]
+            wound, wout = impl('wind(ravel(v))', lambda: c.wind(flat, **kw), wchain, wline, late=pair is not None)
             items.append((wline, wout, {'recipe': recipe, 'op': wline}))
             # oracle: wind(ravel(v)) == v transposed to others + grid dims
             expect = arr_str(tr)
@@ -200,6 +339,38 @@ def convention_cases(ctx, conv: str, items: list) -> None:
             if flat.dtype != da.dtype or (wound is not None and wound.dtype != da.dtype):
                 ctx.oracle_fail('storage-type-changed', {**desc, 'dtype': str(da.dtype)},
                                 f'{da.dtype} data: ravel gives {flat.dtype}, wind gives {None if wound is None else wound.dtype}')
+            if pair is None:
+                continue
+            # the other variable of the pair, through the same convention object, while the first one's flattened
+            # form and round trip are still held (the ledger looks at them again after each of these calls)
+            spec2 = {**spec, 'which': 1}
+            da2 = make_array(spec2, pool)
+            a2 = arr_str(da2)
+            line2 = f"ravel {gs} {dflt} {a2} {lin or '-'}"
+            desc2 = {**desc, 'op': line2, 'array': spec2}
+            led.hold('input', da2, [{'gen': spec2}], line2)
+            chain2 = [{'gen': spec2}, {'ravel': lin}]
+            flat2, out2 = impl('ravel(v)', lambda: c.ravel(da2) if lin is None else c.ravel(da2, linear_dimension=lin), chain2, line2)
+            items.append((line2, out2, {'recipe': recipe, 'op': line2}))
+            if flat2 is None:
+                ctx.oracle_fail('ravel-raised', desc2, 'ems.ravel raised on a variable defined on a grid')
+                continue
+            tr2 = da2.transpose(*others, *gdims)
+            expect_flat2 = flat_str([(d, sizes[d]) for d in others] + [(lexp, gsize)], tr2.values)
+            if out2 != expect_flat2:
+                ctx.oracle_fail('ravel-differs', desc2, f'ravel(v) = {out2[:120]} expected {expect_flat2[:120]}')
+            wline2 = (f"wind {gs} {dflt} {out2} {kind if 'grid_kind' in kw else '-'} "
+                      f"{kw.get('axis', '-')} {kw.get('linear_dimension', '-')}")
+            wound2, wout2 = impl('wind(ravel(v))', lambda: c.wind(flat2, **kw), chain2 + [wind_step(kw)], wline2)
+            items.append((wline2, wout2, {'recipe': recipe, 'op': wline2}))
+            if wout2 != arr_str(tr2):
+                ctx.oracle_fail('wind-of-ravel-differs', {**desc2, 'op': wline2, 'mode': mode},
+                                f'wind(ravel(v)) = {wout2[:120]} expected {arr_str(tr2)[:120]}')
+            if flat2.dtype != da2.dtype or (wound2 is not None and wound2.dtype != da2.dtype):
+                ctx.oracle_fail('storage-type-changed', {**desc2, 'dtype': str(da2.dtype)},
+                                f'{da2.dtype} data: ravel gives {flat2.dtype}, wind gives {None if wound2 is None else wound2.dtype}')
+            if dims[-len(gdims):] != list(gdims):
+                ctx.nontrivial(('ravel-pair', conv, kind, tuple(dims), pair))
         # arbitrary linear data, linear dimension at every position
         for _ in range(3):
             sizes2 = other_sizes(rng, ds_other)
@@ -214,8 +385,10 @@ def convention_cases(ctx, conv: str, items: list) -> None:
             pos = rng.randint(0, ne)
             dims = extra[:pos] + [lname] + extra[pos:]
             sizes2[lname] = gsize
-            x = tagged(dims, sizes2, base=rng.randint(0, 9), rng=rng)      # any storage type / memory layout
-            xs = arr_str(x)
+            pair = rng.choice([None, None] + PAIRS)
+            spec = {'dims': dims, 'sizes': [sizes2[d] for d in dims], 'base': rng.randint(0, 9), 'style': pick_style(rng),    # any storage type / memory layout
+                    'pair': pair, 'which': 0}
+            pool = {}
             mode = rng.choice(['axis', 'naxis', 'name'] + (['default'] if pos == ne else []))
             kw = {'grid_kind': kind_objs[kind]}
             if mode == 'axis':
@@ -227,58 +400,56 @@ def convention_cases(ctx, conv: str, items: list) -> None:
             if rng.random() < 0.08:
                 kw['axis'] = rng.choice([len(dims), -len(dims) - 1])
                 mode = 'badaxis'
-            wline = (f"wind {gs} {dflt} {xs} {kind} {kw.get('axis', '-')} {kw.get('linear_dimension', '-')}")
-            desc = {'recipe': recipe, 'op': wline, 'dims': dims, 'sizes': [sizes2[d] for d in dims], 'kind': kind, 'mode': mode,
-                    'dataset_sizes_of_other_dims': {d: ds_other[d] for d in extra if d in ds_other}}
-            try:
-                wound = c.wind(x, **kw)
-                wout = arr_str(wound)
-            except Exception:
-                wound, wout = None, 'ERR'
-            items.append((wline, wout, {'recipe': recipe, 'op': wline}))
-            ctx.count(f'wind:{conv}:{kind}:{mode}')
-            ctx.count('wind:linear-name:' + ('grid-dimension' if lname in all_grid_dims else 'other'))
-            if len(dims) >= 2 and pos != ne:
-                ctx.nontrivial(('wind', conv, kind, tuple(dims), mode))
-            if wound is None:
-                if mode != 'badaxis':
-                    ctx.oracle_fail('wind-raised', desc, 'ems.wind raised on well-formed linear data')
-                continue
-            if mode == 'badaxis':
-                ctx.oracle_fail('wind-bad-axis-accepted', {**desc, 'axis': kw['axis']}, f'ems.wind accepted axis {kw["axis"]} on rank {len(dims)}')
-                continue
-            # oracle: the grid dimensions stand where the linear one stood, the other dimensions are untouched and in
-            # place, the values are those of x in the same (C) order
-            exp_ds = ([(d, sizes2[d]) for d in extra[:pos]] + list(zip(gdims, gshape)) + [(d, sizes2[d]) for d in extra[pos:]])
-            expect_w = flat_str(exp_ds, x.values)
-            if tuple(wound.dims) != tuple(d for d, _ in exp_ds):
-                ctx.oracle_fail('wind-dims-order', desc, f'wind dims {wound.dims}, expected {tuple(d for d, _ in exp_ds)}')
-            elif wout != expect_w:
-                ctx.oracle_fail('wind-differs', desc, f'wind(x) = {wout[:120]} expected {expect_w[:120]}')
-            # ravel(wind(x)) == x with lname moved last
-            rline = f"ravel {gs} {dflt} {wout} {lname}"
-            try:
-                back = c.ravel(wound, linear_dimension=lname)
-                bout = arr_str(back)
-            except Exception:
-                back, bout = None, 'ERR'
-            items.append((rline, bout, {'recipe': recipe, 'op': rline}))
-            expect = arr_str(x.transpose(*extra, lname))
-            if bout != expect:
-                ctx.oracle_fail('ravel-of-wind-differs', desc,
-                                f'ravel(wind(x)) = {bout[:120]} expected {expect[:120]}')
-            if wound.dtype != x.dtype or (back is not None and back.dtype != x.dtype):
-                ctx.oracle_fail('storage-type-changed', {**desc, 'dtype': str(x.dtype)},
-                                f'{x.dtype} data: wind gives {wound.dtype}, ravel gives {None if back is None else back.dtype}')
+            ctx.count('wind:variable:' + (pair or 'alone'))
+            for which in ((0, 1) if pair else (0,)):
+                spec_w = {**spec, 'which': which}
+                x = make_array(spec_w, pool)
+                xs = arr_str(x)
+                wline = (f"wind {gs} {dflt} {xs} {kind} {kw.get('axis', '-')} {kw.get('linear_dimension', '-')}")
+                desc = {'recipe': recipe, 'op': wline, 'dims': dims, 'sizes': [sizes2[d] for d in dims], 'kind': kind, 'mode': mode,
+                        'array': spec_w, 'dataset_sizes_of_other_dims': {d: ds_other[d] for d in extra if d in ds_other}}
+                led.hold('input', x, [{'gen': spec_w}], wline)
+                chain = [{'gen': spec_w}, wind_step(kw)]
+                wound, wout = impl('wind(x)', lambda: c.wind(x, **kw), chain, wline, late=bool(pair) and which == 0)
+                items.append((wline, wout, {'recipe': recipe, 'op': wline}))
+                ctx.count(f'wind:{conv}:{kind}:{mode}')
+                ctx.count('wind:linear-name:' + ('grid-dimension' if lname in all_grid_dims else 'other'))
+                if len(dims) >= 2 and pos != ne:
+                    ctx.nontrivial(('wind', conv, kind, tuple(dims), mode) + ((pair, which) if which else ()))
+                if wound is None:
+                    if mode != 'badaxis':
+                        ctx.oracle_fail('wind-raised', desc, 'ems.wind raised on well-formed linear data')
+                    continue
+                if mode == 'badaxis':
+                    ctx.oracle_fail('wind-bad-axis-accepted', {**desc, 'axis': kw['axis']}, f'ems.wind accepted axis {kw["axis"]} on rank {len(dims)}')
+                    continue
+                # oracle: the grid dimensions stand where the linear one stood, the other dimensions are untouched and in
+                # place, the values are those of x in the same (C) order
+                exp_ds = ([(d, sizes2[d]) for d in extra[:pos]] + list(zip(gdims, gshape)) + [(d, sizes2[d]) for d in extra[pos:]])
+                expect_w = flat_str(exp_ds, x.values)
+                if tuple(wound.dims) != tuple(d for d, _ in exp_ds):
+                    ctx.oracle_fail('wind-dims-order', desc, f'wind dims {wound.dims}, expected {tuple(d for d, _ in exp_ds)}')
+                elif wout != expect_w:
+                    ctx.oracle_fail('wind-differs', desc, f'wind(x) = {wout[:120]} expected {expect_w[:120]}')
+                # ravel(wind(x)) == x with lname moved last
+                rline = f"ravel {gs} {dflt} {wout} {lname}"
+                back, bout = impl('ravel(wind(x))', lambda: c.ravel(wound, linear_dimension=lname), chain + [{'ravel': lname}], rline,
+                                  late=bool(pair) and which == 0)
+                items.append((rline, bout, {'recipe': recipe, 'op': rline}))
+                expect = arr_str(x.transpose(*extra, lname))
+                if bout != expect:
+                    ctx.oracle_fail('ravel-of-wind-differs', desc,
+                                    f'ravel(wind(x)) = {bout[:120]} expected {expect[:120]}')
+                if wound.dtype != x.dtype or (back is not None and back.dtype != x.dtype):
+                    ctx.oracle_fail('storage-type-changed', {**desc, 'dtype': str(x.dtype)},
+                                    f'{x.dtype} data: wind gives {wound.dtype}, ravel gives {None if back is None else back.dtype}')
     # a variable on no grid is refused - whether or not the dataset knows its dimensions, at any length
     for dims in (['time'], ['time', 'k'], [], ['spare', 'index']):
         da = tagged(dims, other_sizes(rng, ds_other))
         line = f"ravel {gs} {dflt} {arr_str(da)} -"
-        try:
-            out = arr_str(c.ravel(da))
+        r, out = impl('ravel(v)', lambda: c.ravel(da), [{'gen': {'dims': dims, 'sizes': list(da.shape), 'base': 0}}, {'ravel': None}], line)
+        if r is not None:
             ctx.oracle_fail('no-grid-accepted', {'recipe': recipe, 'dims': dims}, f'ems.ravel accepted a variable on no grid: {out[:80]}')
-        except Exception:
-            out = 'ERR'
         items.append((line, out, {'recipe': recipe, 'op': line}))
         ctx.nontrivial(('nogrid', conv, tuple(dims)))
     # only some of a kind's dimensions present -> refused (superset test)
@@ -286,12 +457,21 @@ def convention_cases(ctx, conv: str, items: list) -> None:
         gd = built.grids['face'][0]
         da = tagged([gd[0], 'time'], {gd[0]: built.grids['face'][1][0], 'time': 2})
         line = f"ravel {gs} {dflt} {arr_str(da)} -"
-        try:
-            out = arr_str(c.ravel(da))
+        r, out = impl('ravel(v)', lambda: c.ravel(da), [{'gen': {'dims': [gd[0], 'time'], 'sizes': list(da.shape), 'base': 0}}, {'ravel': None}], line)
+        if r is not None:
             ctx.oracle_fail('partial-grid-accepted', {'recipe': recipe, 'dims': [gd[0], 'time']}, 'ems.ravel accepted a variable with only one of the grid dimensions')
-        except Exception:
-            out = 'ERR'
         items.append((line, out, {'recipe': recipe, 'op': line}))
+    # the first results of every pair, read again now that everything else has been through the same object: the
+    # model is a function of the line alone, so the comparison is with what the call should have returned
+    for h in led.held + led.altered:
+        if h['late']:
+            try:
+                now = arr_str(h['arr'])
+            except Exception:
+                now = 'ODD'
+            items.append((h['op'], now, {'recipe': recipe, 'op': h['op'], 'read': 'after every later call on the same convention object',
+                                         'chain': h['chain']}))
+            ctx.count('late-read')
 
 
 def run(ctx) -> None:
@@ -377,7 +557,24 @@ def run_one(ctx, inp: dict) -> dict:
     out = {}
     if inp.get('op') and ctx.driver:
         out['model'] = ctx.model([inp['op']])[0]
-    out['note'] = 'impl output is recorded in the replay file (op lines carry the full input array)'
+    if inp.get('held_chain') and inp.get('later_chain') and inp.get('recipe'):
+        # a history on one convention object: produce the held value, make the later call, look at the held value again
+        built = G.build(inp['recipe'])
+        c = G.bind(built)
+        kind_objs = {getattr(k, 'value', k): k for k in c.grid_kinds}
+        pool = {}
+        held = play(c, kind_objs, inp['held_chain'], pool)
+        before = arr_str(held)
+        try:
+            play(c, kind_objs, inp['later_chain'], pool)
+        except Exception as e:  # the later call may be one that is refused
+            out['later_call'] = f'raised {type(e).__name__}'
+        after = arr_str(held)
+        out['held_when_returned'] = before[:300]
+        out['held_after_later_call'] = after[:300]
+        out['history'] = 'INTACT' if before == after else 'ALTERED by the later call on the same convention object'
+    else:
+        out['note'] = 'impl output is recorded in the replay file (op lines carry the full input array)'
     return out
 
 
